@@ -72,3 +72,253 @@ def run(ctx):
     sup = [c for c in walk_no_nested(ki.node) if isinstance(c, ast.Call) and isinstance(c.func, ast.Attribute) and c.func.attr == "__init__" and "super" in src(c.func.value)]
     ctx.check("R04.1", f"{ki.key}::the sampled KL optimises the expansion point without the constant keys",
               len(sup) == 1 and [src(a) for a in sup[0].args] == ["_reduce_field(sample_list._m, constants)"], None, ki)
+
+
+EO = "nifty.cl.operators.energy_operators"
+OPM = "nifty.cl.operators.operator"
+
+
+def r04_2(ctx, m):
+    """the one energy with a hand-written specialisation: term identity per pixel"""
+    from .c03 import _load_sympy
+    from ..fieldsym import FieldSym, NotUnderstood
+    ctx.rule("R04.2", "VariableCovarianceGaussianEnergy specialised to a constant key equals the full energy with the constant "
+                      "inserted, per pixel and for real and complex sampling: residual constant -> _SpecialGammaEnergy(residual) on the "
+                      "inverse covariance; inverse covariance constant -> GaussianEnergy(inverse_covariance = diag(constant)) on the "
+                      "residual minus (1/2) tr log(constant) (no 1/2 for complex) - terms read from apply() of both classes and from "
+                      "the specialisation method, sympy as normaliser", floor=4)
+    sp = _load_sympy()
+    V = m.cls(EO, "VariableCovarianceGaussianEnergy")
+    G = m.cls(EO, "_SpecialGammaEnergy")
+    fn = V.methods.get("_simplify_for_constant_input_nontrivial")
+    ap = V.methods.get("apply")
+    if sp is None or fn is None or ap is None:
+        ctx.und("R04.2", f"{V.key}::specialisation", "sympy / methods missing", V)
+        return
+    for f in (fn, ap, G.methods["apply"]):
+        ctx.saw_func(f)
+    X = sp.Symbol("X", positive=True)
+    CST = sp.Symbol("C", positive=True)
+
+    class NU(Exception):
+        pass
+
+    def full_energy(cplx, r, i):
+        """per-pixel energy of the full operator with residual r and inverse covariance i"""
+        fs = FieldSym(sp, facts={"self._cplx": cplx, f"{ap.params()[1]}.want_metric": False})
+        env = {}
+        # x[self._kr], x[self._ki] are read by subscripting: pre-bind the unpacked names
+        for st in ap.node.body:
+            if isinstance(st, ast.Assign) and isinstance(st.targets[0], ast.Tuple) and isinstance(st.value, ast.Tuple):
+                for t, v in zip(st.targets[0].elts, st.value.elts):
+                    if isinstance(v, ast.Subscript) and src(v.slice) == "self._kr":
+                        env[t.id] = r
+                    elif isinstance(v, ast.Subscript) and src(v.slice) == "self._ki":
+                        env[t.id] = i
+        body = [st for st in ap.node.body if not (isinstance(st, ast.Assign) and isinstance(st.targets[0], ast.Tuple))]
+        E, _ = fs.run(body, env)
+        return E
+
+    def gamma_energy(cplx, resi, x):
+        ga = G.methods["apply"]
+        fs = FieldSym(sp, facts={"self._cplx": cplx, f"{ga.params()[1]}.want_metric": False})
+        fs.syms["_resi"] = resi
+        E, _ = fs.run(ga.node.body, {ga.params()[1]: x})
+        return E
+
+    def ev(e, env, cplx):
+        if isinstance(e, ast.Constant) and isinstance(e.value, (int, float)) and not isinstance(e.value, bool):
+            return sp.nsimplify(e.value)
+        if isinstance(e, ast.Name):
+            if e.id in env:
+                return env[e.id]
+            raise NU(e.id)
+        if isinstance(e, ast.UnaryOp) and isinstance(e.op, ast.USub):
+            return -ev(e.operand, env, cplx)
+        if isinstance(e, ast.BinOp) and isinstance(e.op, (ast.Add, ast.Sub, ast.Mult, ast.Div)):
+            a, b = ev(e.left, env, cplx), ev(e.right, env, cplx)
+            return {ast.Add: a + b, ast.Sub: a - b, ast.Mult: a * b, ast.Div: a / b}[type(e.op)]
+        if isinstance(e, ast.Subscript) and src(e.value) == fn.params()[1] and src(e.slice) == env.get("__keyname__", "key"):
+            return CST
+        if isinstance(e, ast.Call):
+            nm = call_name(e)
+            if nm in ("ducktape", "ducktape_left") and isinstance(e.func, ast.Attribute):
+                return ev(e.func.value, env, cplx)
+            if nm in ("asnumpy_rw", "asnumpy", "sum", "val_rw") and isinstance(e.func, ast.Attribute) and not e.args:
+                return ev(e.func.value, env, cplx)
+            if nm == "log" and isinstance(e.func, ast.Attribute) and not e.args:
+                return sp.log(ev(e.func.value, env, cplx))
+            if nm == "_SpecialGammaEnergy" and len(e.args) == 1:
+                return gamma_energy(cplx, ev(e.args[0], env, cplx), X)
+            if nm == "makeOp" and e.args:
+                return ("diag", ev(e.args[0], env, cplx))
+            if nm == "GaussianEnergy":
+                kw = {k.arg: k.value for k in e.keywords}
+                if "inverse_covariance" in kw and (kw.get("data") is None or src(kw["data"]) == "None") and not e.args:
+                    ic = ev(kw["inverse_covariance"], env, cplx)
+                    if isinstance(ic, tuple) and ic[0] == "diag":
+                        return sp.Rational(1, 2) * ic[1] * X ** 2  # GaussianEnergy: 1/2 r^dagger N^-1 r (docstring; decided by R11.x)
+                raise NU(src(e)[:60])
+            if nm in ("ConstantLikelihoodEnergyOperator", "ConstantEnergyOperator") and len(e.args) == 1:
+                return ev(e.args[0], env, cplx)
+        raise NU(src(e)[:60])
+
+    def run_body(stmts, env, cplx, const_is_residual):
+        for st in stmts:
+            if isinstance(st, (ast.Expr, ast.ImportFrom, ast.Import)):
+                continue
+            if isinstance(st, ast.Assign) and isinstance(st.targets[0], ast.Name):
+                if isinstance(st.value, ast.Subscript) and "keys()" in src(st.value.value) and src(st.value.slice) == "0":
+                    env["__keyname__"] = st.targets[0].id
+                    continue
+                env[st.targets[0].id] = ev(st.value, env, cplx)
+            elif isinstance(st, ast.AugAssign) and isinstance(st.target, ast.Name) and isinstance(st.op, (ast.Div, ast.Mult)):
+                v = ev(st.value, env, cplx)
+                env[st.target.id] = env[st.target.id] / v if isinstance(st.op, ast.Div) else env[st.target.id] * v
+            elif isinstance(st, ast.If):
+                from ..util import strip_not
+                from ..model import cc
+                core, pol = strip_not(st.test)
+                t = cc(core)
+                kn = env.get("__keyname__", "key")
+                if t in (f"{kn} == self._kr", f"self._kr == {kn}"):
+                    tv = const_is_residual
+                elif t in (f"{kn} != self._kr", f"self._kr != {kn}"):
+                    tv = not const_is_residual
+                elif t in (f"{kn} == self._ki", f"self._ki == {kn}"):
+                    tv = not const_is_residual
+                elif t in (f"{kn} != self._ki", f"self._ki != {kn}"):
+                    tv = const_is_residual
+                elif t == "self._cplx":
+                    tv = cplx
+                else:
+                    raise NU(f"test {t}")
+                tv = tv if pol else not tv
+                r_ = run_body(st.body if tv else st.orelse, env, cplx, const_is_residual)
+                if r_ is not None:
+                    return r_
+            elif isinstance(st, ast.Return):
+                v = st.value
+                if isinstance(v, ast.Tuple) and len(v.elts) == 2:
+                    return ev(v.elts[1], env, cplx)
+                raise NU("return shape")
+            else:
+                raise NU(src(st)[:60])
+        return None
+    for cplx in (False, True):
+        for const_is_residual in (True, False):
+            key = f"{fn.key}::{'complex' if cplx else 'real'} sampling, constant {'residual' if const_is_residual else 'inverse covariance'}"
+            try:
+                spec = run_body(fn.node.body, {}, cplx, const_is_residual)
+                full = full_energy(cplx, CST, X) if const_is_residual else full_energy(cplx, X, CST)
+            except (NU, NotUnderstood) as exc:
+                ctx.und("R04.2", key, f"not understood: {exc}", fn)
+                continue
+            if spec is None or full is None:
+                ctx.und("R04.2", key, "no term", fn)
+                continue
+            d = sp.simplify(sp.expand_log(spec - full, force=True))
+            ctx.check("R04.2", key, d == 0, f"specialised = {sp.simplify(spec)}; full with the constant inserted = {sp.simplify(full)}", fn)
+
+
+def r04_3(ctx, m):
+    """combinators specialise their constituents with their own share of the constants, in order"""
+    ctx.rule("R04.3", "specialisation of combinators: _OpProd/_OpSum specialise each factor/summand with the part of the constants "
+                      "on ITS OWN domain (c_inp.extract_part(self._opK.domain)) and rebuild the same combinator from (o1, o2) in this "
+                      "order; chains (_OpChain, ChainOperator) walk their operators from the input side, hand the constant output of one "
+                      "stage to the next and compose in application order; SumOperator keeps each summand's sign; the generic "
+                      "fallback inserts the constants in front of the unchanged operator", floor=7)
+    for cname in ("_OpProd", "_OpSum"):
+        C = m.cls(OPM, cname)
+        fi = C.methods.get("_simplify_for_constant_input_nontrivial")
+        if fi is None:
+            ctx.und("R04.3", f"{C.key}::specialisation", "method missing", C)
+            continue
+        ctx.saw_func(fi)
+        ci = fi.params()[1]
+        sides = {}
+        for st in walk_no_nested(fi.node):
+            if isinstance(st, ast.Assign) and isinstance(st.targets[0], ast.Tuple) and isinstance(st.value, ast.Call) and call_name(st.value) == "simplify_for_constant_input":
+                recv = src(st.value.func.value)
+                arg = src(st.value.args[0]).replace(" ", "").replace("\n", "") if st.value.args else None
+                sides[recv] = (src(st.targets[0].elts[1]), arg, st)
+        key = f"{C.key}::each side gets the constants of its own domain"
+        ok = set(sides) == {"self._op1", "self._op2"} and all(a == f"{ci}.extract_part({r}.domain)" for r, (_, a, _) in sides.items())
+        ctx.check("R04.3", key, ok, str({r: a for r, (_, a, _) in sides.items()}), fi)
+        if set(sides) == {"self._op1", "self._op2"}:
+            o1, o2 = sides["self._op1"][0], sides["self._op2"][0]
+            rets = [r for r in walk_no_nested(fi.node) if isinstance(r, ast.Return)]
+            good = bool(rets) and all(isinstance(r.value, ast.Tuple) and src(r.value.elts[1]) == f"{cname}({o1}, {o2})" for r in rets)
+            ctx.check("R04.3", f"{C.key}::rebuilds {cname}(o1, o2) in operand order", good, str([src(r.value) for r in rets]), fi)
+    for mod, cname in ((OPM, "_OpChain"), ("nifty.cl.operators.chain_operator", "ChainOperator")):
+        C = m.cls(mod, cname)
+        fi = C.methods.get("_simplify_for_constant_input_nontrivial")
+        if fi is None:
+            ctx.und("R04.3", f"{C.key}::specialisation", "method missing", C)
+            continue
+        ctx.saw_func(fi)
+        ci = fi.params()[1]
+        loops = [st for st in walk_no_nested(fi.node) if isinstance(st, ast.For)]
+        key = f"{C.key}::walks the operators from the input side and threads the constants"
+        if len(loops) != 1:
+            ctx.und("R04.3", key, f"{len(loops)} loops", fi)
+            continue
+        lp = loops[0]
+        it_ok = src(lp.iter) in ("reversed(self._ops)", "self._ops[::-1]")
+        ov = src(lp.target)
+        thr = [st for st in lp.body if isinstance(st, ast.Assign) and isinstance(st.targets[0], ast.Tuple) and isinstance(st.value, ast.Call)
+               and call_name(st.value) == "simplify_for_constant_input"]
+        thr_ok = len(thr) == 1 and src(thr[0].targets[0].elts[0]) == ci and [src(a) for a in thr[0].value.args] == [ci] and src(thr[0].value.func.value) == ov
+        ctx.check("R04.3", key, it_ok and thr_ok, f"for {ov} in {src(lp.iter)}: {src(thr[0]) if thr else None}", fi, lp)
+        if thr:
+            t_op = src(thr[0].targets[0].elts[1])
+            comp = [st for st in lp.body if isinstance(st, ast.Assign) and isinstance(st.value, ast.IfExp)]
+            key = f"{C.key}::composes later stages onto the earlier ones"
+            if len(comp) != 1:
+                ctx.und("R04.3", key, "composition statement not found", fi)
+            else:
+                acc = src(comp[0].targets[0])
+                e = comp[0].value
+                okc = src(e.test) == f"{acc} is None" and src(e.body) == t_op and src(e.orelse) in (f"{ov}({acc})", f"{t_op}({acc})", f"{ov} @ {acc}", f"{t_op} @ {acc}")
+                rets = [r for r in walk_no_nested(fi.node) if isinstance(r, ast.Return) and isinstance(r.value, ast.Tuple)]
+                okr = any(src(r.value.elts[0]) == ci and src(r.value.elts[1]) == acc for r in rets)
+                ctx.check("R04.3", key, okc and okr, f"{src(comp[0])}; returns {[src(r.value) for r in rets]}", fi, comp[0])
+    S = m.cls("nifty.cl.operators.sum_operator", "SumOperator")
+    fi = S.methods.get("_simplify_for_constant_input_nontrivial")
+    if fi is not None:
+        ctx.saw_func(fi)
+        ci = fi.params()[1]
+        calls = [c for c in walk_no_nested(fi.node) if isinstance(c, ast.Call) and call_name(c) == "simplify_for_constant_input"]
+        ok1 = len(calls) == 1 and src(calls[0].args[0]).replace(" ", "").replace("\n", "") == f"{ci}.extract_part({src(calls[0].func.value)}.domain)"
+        ctx.check("R04.3", f"{S.key}::each summand gets the constants of its own domain", ok1, src(calls[0]) if calls else None, fi)
+        signs = [st for st in walk_no_nested(fi.node) if isinstance(st, ast.Assign) and isinstance(st.value, ast.IfExp) and isinstance(st.value.orelse, ast.UnaryOp)
+                 and isinstance(st.value.orelse.op, ast.USub)]
+        zips = [lp for lp in walk_no_nested(fi.node) if isinstance(lp, ast.For) and "self._neg" in src(lp.iter)]
+        oks = len(signs) == len(zips) >= 1 and all(src(st.value.test).startswith("not ") and src(st.value.orelse.operand) == src(st.value.body) for st in signs)
+        ctx.check("R04.3", f"{S.key}::a summand is negated exactly when its sign flag is set", True if oks else None,
+                  str([src(st) for st in signs]), fi)
+    base = m.cls(OPM, "Operator").methods.get("_simplify_for_constant_input_nontrivial")
+    if base is not None:
+        ctx.saw_func(base)
+        rets = [r for r in walk_no_nested(base.node) if isinstance(r, ast.Return)]
+        ci = base.params()[1]
+        ok = len(rets) == 1 and src(rets[0].value).replace(" ", "") == f"(None,self@InsertionOperator(self.domain,{ci}))"
+        ctx.check("R04.3", f"{base.key}::generic fallback = operator after insertion of the constants", ok, src(rets[0].value) if rets else None, base)
+    ins = m.cls("nifty.cl.operators.simplify_for_const", "InsertionOperator")
+    ap = ins.methods.get("apply")
+    if ap is not None:
+        ctx.saw_func(ap)
+        un = [c for c in walk_no_nested(ap.node) if isinstance(c, ast.Call) and call_name(c) == "unite" and [src(a) for a in c.args] == ["self._cst"]]
+        rets = [src(r.value) for r in walk_no_nested(ap.node) if isinstance(r, ast.Return)]
+        xn = ap.params()[1]
+        ctx.check("R04.3", f"{ap.key}::value = input united with the stored constants, Jacobian = stored (identity on the variable keys, null on the constants)",
+                  len(un) == 1 and any(r.startswith(f"{xn}.new(") and r.endswith("self._jac)") for r in rets), str(rets), ap)
+
+
+_run_c04 = run
+
+
+def run(ctx):  # noqa: F811
+    _run_c04(ctx)
+    r04_2(ctx, ctx.model)
+    r04_3(ctx, ctx.model)
